@@ -1,8 +1,9 @@
 SPECIFICATION Spec
 CONSTANTS
-  Mode = "variants"
+  Mode = "model"
   AtomSet <- AllAtoms
-  InnerAtoms <- ZeroOne
+  PairAtoms <- CoreAtoms
+  InnerAtoms <- Zeros
   PairOuter = TRUE
   Dump = TRUE
 INVARIANT KeyImpliesPyEq
